@@ -259,4 +259,16 @@ def operation_is_subdirectory_update(sc, v):
     Manifest met there); the same IndexError from a whole-tree update is a different defect."""
     import re
     d = v.get('detail', '')
-    return bool(re.search(r"path='[^']", d) or re.search(r"op='update-sub'", d) or re.search(r"path2='[^']", d))
+    if re.search(r"path='[^']", d) or re.search(r"op='update-sub'", d) or re.search(r"path2='[^']", d):
+        return True
+    # (checks whose message does not spell the operation out: the scenario's single operation starts in a sub-directory)
+    if str(sc.get('op', '')).endswith('update-sub') and bool(sc.get('sub')):
+        return True
+    for r in sc.get('rounds', []) if isinstance(sc.get('rounds'), list) else []:
+        u = r.get('update') if isinstance(r, dict) else None
+        if isinstance(u, dict) and (u.get('path') or u.get('path2')):
+            return True
+    for o in sc.get('ops', []) if isinstance(sc.get('ops'), list) else []:
+        if isinstance(o, dict) and 'update' in str(o.get('op', '')) and (o.get('path') or o.get('sub')):
+            return True
+    return False
